@@ -55,6 +55,16 @@ BUILTIN_PURE = {'len', 'range', 'int', 'float', 'bool', 'str', 'abs', 'sum', 'mi
 # builtins whose result holds references to (the elements of) their arguments
 BUILTIN_ALIAS = {'list', 'tuple', 'set', 'dict', 'enumerate', 'zip', 'reversed', 'iter', 'next', 'map', 'filter',
                  'getattr', 'vars'}
+# ufuncs and friends accept their output array positionally: np.add(a, b, out), np.sqrt(a, out), np.clip(a, lo, hi, out)
+OUT_POSITION = {**{u: 1 for u in ('abs', 'absolute', 'sqrt', 'square', 'exp', 'log', 'log2', 'log10', 'sign', 'ceil', 'floor', 'isnan',
+                                  'isinf', 'isfinite', 'logical_not', 'cbrt', 'tanh', 'cos', 'sin', 'arctan', 'arccos', 'negative',
+                                  'reciprocal', 'conj', 'rint', 'trunc', 'fabs')},
+                **{u: 2 for u in ('add', 'subtract', 'multiply', 'divide', 'true_divide', 'floor_divide', 'power', 'mod', 'remainder',
+                                  'maximum', 'minimum', 'logical_and', 'logical_or', 'logical_xor', 'matmul', 'dot', 'round', 'around',
+                                  'cumsum', 'cumprod', 'take', 'fmax', 'fmin', 'hypot', 'arctan2', 'greater', 'less', 'equal', 'not_equal')},
+                'clip': 3, 'choose': 2}
+# reflection: the translator cannot see what these touch
+FORBIDDEN_CALLS = {'exec', 'eval', 'compile', 'globals', 'locals', '__import__', 'setattr', 'delattr', 'memoryview'}
 EXC_NAMES = {'BCTParamError', 'ValueError', 'KeyError', 'TypeError', 'NotImplementedError', 'ImportError',
              'IndexError', 'RuntimeError', 'Exception', 'AssertionError', 'ZeroDivisionError', 'StopIteration',
              'BibTeX', 'Doi', 'Url', 'Text'}
@@ -554,6 +564,8 @@ class Tr:
 
         if isinstance(f, ast.Name):
             nm = f.id
+            if nm in FORBIDDEN_CALLS:
+                raise Unsupported('call of ' + nm)
             if nm in sub:
                 return pessimistic(sub[nm])
             h = self.fn.resolve_nested(nm)
@@ -584,6 +596,8 @@ class Tr:
                     return cs, EMPTY
                 if last in NP_INPLACE:
                     return cs + (self.mutate(argA[0]) if argA else self.mutate(allA)), EMPTY
+                if last in OUT_POSITION and len(argA) > OUT_POSITION[last]:
+                    cs = cs + self.mutate(argA[OUT_POSITION[last]])        # positional out argument
                 if tail2 in NP_PURE_DOTTED:
                     return cs, EMPTY
                 if last in NP_VIEW:
@@ -604,6 +618,10 @@ class Tr:
             m = f.attr
             if m == 'astype' and 'copy' in kwA:
                 return cs, recvA
+            if m == 'shuffle':
+                return cs + self.mutate(aunion(recvA, allA)), EMPTY       # rng.shuffle(x) permutes x in place
+            if m in OUT_POSITION and len(argA) > OUT_POSITION[m] - 1:
+                cs = cs + self.mutate(argA[OUT_POSITION[m] - 1])          # a.dot(b, out), a.clip(lo, hi, out), ...
             if m in METH_INPLACE:
                 extra = []
                 if m in METH_STORE:
